@@ -28,8 +28,9 @@ def plan(tier):
 
 
 @st.composite
-def _ops(draw, kind, d):
+def _ops(draw, kind, d, cfg, allow_long=True):
     ops = []
+    longs = 0 if allow_long else 1  # at most one very long run per scenario (they run interleaved, then again alone)
     for _ in range(draw(st.integers(1, 7))):
         if kind == "ensemble":
             r_ = draw(st.integers(0, 7))
@@ -38,7 +39,10 @@ def _ops(draw, kind, d):
             elif r_ == 1:
                 ops.append(["inspect", False])
             else:
-                ops.append(["advance", draw(st.sampled_from([0, 1, 1, 2, 3, 7]))])
+                m_ = draw(st.sampled_from([0, 1, 1, 2, 3, 7]))
+                m2_ = m_ if longs else lc.maybe_long(draw, m_, cfg, one_in=24)
+                longs += m2_ != m_
+                ops.append(["advance", m2_])
             continue
         k = draw(st.sampled_from(["step", "step", "advance", "exchange", "exchange", "restart", "inspect", "scribble"]))
         if k == "scribble":
@@ -50,7 +54,10 @@ def _ops(draw, kind, d):
         if k == "step":
             ops.append(["step"])
         elif k == "advance":
-            ops.append(["advance", draw(st.sampled_from([0, 1, 2, 5, 12, 30]))])
+            m_ = draw(st.sampled_from([0, 1, 2, 5, 12, 30]))
+            m2_ = m_ if longs else lc.maybe_long(draw, m_, cfg, one_in=24)
+            longs += m2_ != m_
+            ops.append(["advance", m2_])
         elif k == "restart":
             ops.append(["restart"])
         else:
@@ -91,7 +98,7 @@ def _scenario(draw, tier):
     g = draw(st.sampled_from([1, 2, 2, 3, 4]))
     return dict(
         cfg=cfg, group=g,
-        ops=[draw(_ops(cfg["kind"], cfg["d"])) for _ in range(g)],
+        ops=[draw(_ops(cfg["kind"], cfg["d"], cfg, allow_long=(k_ == 0))) for k_ in range(g)],
         faults=dict(tail_p=draw(st.sampled_from([0.0, 0.0, 0.05])), edge_u_p=draw(st.sampled_from([0.0, 0.0, 0.05]))),
         sched_seed=draw(st.integers(0, 2 ** 31 - 1)),
         stall_p=draw(st.sampled_from([0.0, 0.05])),
